@@ -24,7 +24,7 @@ EV = "problog.evaluator"
 TOL = 1e-6
 
 
-def _bounds_fact(src, var):
+def _bounds_fact(src, var, env=None):
     """fact source `L <= var <= U` -> (L, U) folded, else None"""
     try:
         e = ast.parse(src, mode="eval").body
@@ -32,8 +32,8 @@ def _bounds_fact(src, var):
         return None
     if isinstance(e, ast.Compare) and len(e.ops) == 2 and isinstance(e.comparators[0], ast.Name) and e.comparators[0].id == var:
         if all(isinstance(o, (ast.Lt, ast.LtE)) for o in e.ops):
-            okl, lo = const_value(e.left)
-            oku, hi = const_value(e.comparators[1])
+            okl, lo = const_value(e.left, env)
+            oku, hi = const_value(e.comparators[1], env)
             if okl and oku:
                 return lo, hi
     return None
@@ -60,6 +60,12 @@ def rule_v1(repo, col):
             raise AnalysisError("%s.value: v = float(a) not found" % cname)
         g = cfgmod.build(f.node)
         facts = cfgmod.available_facts(g)
+        menv = dict(m.module_constants())
+        for n_ in ast.walk(f.node):  # a local of the same name shadows the module constant
+            if isinstance(n_, ast.Name) and isinstance(n_.ctx, ast.Store):
+                menv.pop(n_.id, None)
+        for a_ in f.params:
+            menv.pop(a_, None)
         nret = 0
         for node in g.stmt_nodes():
             if node.kind == "stmt" and isinstance(node.ast, ast.Return) and node.id in facts and facts[node.id] is not None:
@@ -67,7 +73,7 @@ def rule_v1(repo, col):
                 ok = False
                 seen = []
                 for src, truth in facts[node.id]:
-                    b = _bounds_fact(src, var)
+                    b = _bounds_fact(src, var, menv)
                     if b is not None and truth:
                         seen.append(b)
                         lo, hi = b
